@@ -58,6 +58,9 @@ pub fn sim_cfg_of(plan: &Plan) -> SimCfg {
 /// Execute in this process (used inside the forked child and by `--inproc` debugging).
 pub fn execute(plan: &Plan, choices: Option<Vec<u32>>, record: bool, props: &[String], dump: bool) -> RunSummary {
     std::panic::set_hook(Box::new(|_| {}));
+    if plan.has_tag("differential") {
+        return execute_differential(plan, choices, record, props, dump);
+    }
     let cfg = sim_cfg_of(plan);
     let ch = match choices {
         Some(v) => Choices::from_vec(v),
@@ -162,6 +165,7 @@ pub fn render_ev(k: &EvKind) -> String {
             snap.metrics
         ),
         EvKind::Built { ok, err, item_size } => format!("BUILT ok={} err={} item_size={}", ok, err, item_size),
+        EvKind::KeyMap(km) => format!("KEYMAP {:?}", km),
         EvKind::Note(s) => format!("NOTE {}", s),
     }
 }
@@ -642,4 +646,104 @@ pub fn minimise(plan: &Plan, v: &Violation, props: &[String], budget: usize) -> 
         }),
         plan: cur,
     })
+}
+
+
+/// C19: the same plan on `Cache` and on `AsyncCache`, in one child; results must agree.
+fn execute_differential(plan: &Plan, choices: Option<Vec<u32>>, record: bool, props: &[String], dump: bool) -> RunSummary {
+    let mut p_sync = plan.clone();
+    p_sync.cfg.flavor = Flavor::Sync;
+    p_sync.tags.retain(|t| t != "differential");
+    let mut p_async = p_sync.clone();
+    p_async.cfg.flavor = Flavor::Async;
+    // the recorded choice vector covers both runs back to back: split by the drawn count of the first
+    let (c1, c2) = match &choices {
+        Some(v) => {
+            let n1 = v.first().copied().unwrap_or(0) as usize;
+            let rest = &v[1.min(v.len())..];
+            let n1 = n1.min(rest.len());
+            (Some(rest[..n1].to_vec()), Some(rest[n1..].to_vec()))
+        }
+        None => (None, None),
+    };
+    let run = |p: &Plan, ch: Option<Vec<u32>>, salt: u64| {
+        let cfg = sim_cfg_of(p);
+        let ch = match ch {
+            Some(v) => Choices::from_vec(v),
+            None => Choices::from_seed(p.seed ^ 0x5eed_5eed ^ salt),
+        };
+        let p2 = p.clone();
+        let out = rt::run(cfg, ch, record, move || run_plan(&p2));
+        (take_log(), out)
+    };
+    let (ev_s, out_s) = run(&p_sync, c1, 0);
+    let (ev_a, out_a) = run(&p_async, c2, 0xa5);
+    let hs = Hist::new(&p_sync, &ev_s);
+    let ha = Hist::new(&p_async, &ev_a);
+    let mut res = oracle::check_all(&hs, &out_s, &[]);
+    let r2 = oracle::check_all(&ha, &out_a, &[]);
+    res.violations.extend(r2.violations);
+    let d = crate::oracle_diff::compare(&hs, &ha);
+    res.violations.extend(d.violations);
+    res.nontrivial |= d.nontrivial;
+    for (k, v) in d.probes {
+        *res.probes.entry(k.to_string()).or_default() += v;
+    }
+    res.violations.retain(|v| props.iter().any(|p| *p == v.prop));
+    let mut lh = 0xcbf29ce484222325u64;
+    for e in ev_s.iter().chain(ev_a.iter()) {
+        lh = fnv64(lh, &serde_json::to_vec(e).unwrap());
+    }
+    let mut faults = BTreeMap::new();
+    faults.insert("time_advances".to_string(), out_s.counters.time_advances + out_a.counters.time_advances);
+    faults.insert("select_arm_choices".to_string(), out_s.counters.select_choices + out_a.counters.select_choices);
+    let dump_s = if dump {
+        let mut s = String::new();
+        for (name, evs, ep) in [("SYNC", &ev_s, out_s.epoch_ns), ("ASYNC", &ev_a, out_a.epoch_ns)] {
+            s.push_str(&format!("==== {} ====\n", name));
+            for e in evs.iter() {
+                s.push_str(&format!("{:>5} t={:>12} {:<14} {}\n", e.seq, e.now.saturating_sub(ep), e.task, render_ev(&e.kind)));
+            }
+        }
+        Some(s)
+    } else {
+        None
+    };
+    let choices_out = if record {
+        let mut v = vec![out_s.choices.len() as u32];
+        v.extend(out_s.choices.iter());
+        v.extend(out_a.choices.iter());
+        Some(v)
+    } else {
+        None
+    };
+    let state_hashes: Vec<u64> = hs.cps.iter().map(|c| fnv64(0xcbf29ce484222325, format!("{:?}", c.snap.entries.as_ref().map(|e| e.iter().map(|x| (x.index, x.ttl_ns > 0)).collect::<Vec<_>>())).as_bytes())).collect();
+    RunSummary {
+        end: format!("sync:{} async:{}", end_str(&out_s.end), end_str(&out_a.end)),
+        violations: res.violations,
+        log_hash: lh,
+        sched_sig: out_s.sched_sig ^ out_a.sched_sig.rotate_left(17),
+        steps: out_s.counters.steps + out_a.counters.steps,
+        switches: out_s.counters.switches + out_a.counters.switches,
+        virt_ns: (out_s.now_ns - out_s.epoch_ns) + (out_a.now_ns - out_a.epoch_ns),
+        probes: res.probes,
+        faults,
+        nontrivial: res.nontrivial,
+        state_hashes,
+        n_events: ev_s.len() + ev_a.len(),
+        choices: choices_out,
+        choices_drawn: out_s.choices_drawn + out_a.choices_drawn,
+        tasks: out_a.tasks,
+        dump: dump_s,
+    }
+}
+
+fn end_str(e: &End) -> String {
+    match e {
+        End::Completed => "completed".to_string(),
+        End::Deadlock(s) => format!("deadlock {}", s),
+        End::Stuck(s) => format!("stuck {}", s),
+        End::StepLimit => "step_limit".to_string(),
+        End::TimeLimit => "time_limit".to_string(),
+    }
 }
